@@ -279,6 +279,14 @@ func (lc *leaderController) NewTerm(req *proto.NewTermRequest) (*proto.NewTermRe
 	}
 
 	lc.followers = nil
+
+	// The head entry reported to the coordinator must be the real end of the log: the entries of the
+	// writes that are still waiting for the WAL sync are not visible to the WAL readers yet. Flush them
+	// now, while holding the lock, so that the log cannot grow after the head has been reported.
+	if err := lc.wal.Sync(lc.ctx); err != nil {
+		return nil, errors.Wrap(err, "failed to sync the wal")
+	}
+
 	headEntryId, err := getLastEntryIdInWal(lc.wal)
 	if err != nil {
 		return nil, err
